@@ -146,14 +146,18 @@ class Report:
         out_of_reach = []
         seen_known = set()
         fail_groups = {}
+        nontrivial = set()
+        e_ids = {id(r) for r in self.e_records}
         for r in self.p_records + self.e_records:
             v = r["verdict"]
             if v == "meta":
                 continue
             key = obligation_key(r)
             solver_time += r.get("time", 0.0) or 0.0
+            obligations += 1
+            if r.get("backend") in ("z3", "cvc5") or (r.get("n_pc") or 0) > 0 or id(r) in e_ids:
+                nontrivial.add(r["name"])
             if v == "proved":
-                obligations += 1
                 discharged += 1
                 by_backend[r.get("backend", "?")] = by_backend.get(r.get("backend", "?"), 0) + 1
                 continue
@@ -247,8 +251,8 @@ class Report:
             undecided=[u[0] for u in self.undecided], out_of_reach=[o[0] for o in out_of_reach],
             out_of_reach_reasons=sorted({o[1] for o in out_of_reach})[:10],
             known_findings_matched=known_matched, canaries=self.canaries,
-            evaluations=obligations + b_evals, distinct_nontrivial=obligations,
-            rule="an obligation = one (function, case, path, clause) VC discharged by z3/cvc5, or one element of a finite repository table evaluated (backend eval); bounded evaluations are listed separately and never counted as discharged",
+            evaluations=obligations + b_evals, distinct_nontrivial=len(nontrivial),
+            rule="an obligation = one (function, case, path, clause) verification condition generated from the current source, or one cell of a finite repository table; evaluations = obligations + bounded-seam inputs; distinct_nontrivial = distinct obligation names that needed a solver call (z3/cvc5), lie on a path with at least one symbolic branch condition, or are table cells (obligations closed by constant evaluation on a branch-free path are counted as trivial); bounded evaluations are listed separately and never counted as discharged",
             explanation=explanation or "",
             exhaustive=False,
         )
@@ -268,7 +272,11 @@ class Report:
               f"bounded_evals={b_evals} known={len(known_matched)} undecided={len(self.undecided)} "
               f"out_of_reach={len(out_of_reach)} wall={wall:.1f}s")
         if self.violations:
+            shown = set()
             for path, suffix in self.violations:
+                if path in shown:
+                    continue
+                shown.add(path)
                 print(f"VIOLATION property={self.prop} replay={path}{suffix}")
             return 1
         if self.errors or obligations == 0:
